@@ -18,6 +18,8 @@ var checks = map[string]func(*core.Ctx) int{
 	"C08": core.CheckC08,
 	"C09": core.CheckC09,
 	"C10": core.CheckC10,
+	"C11": core.CheckC11,
+	"C12": core.CheckC12,
 	"C13": core.CheckC13,
 }
 
